@@ -61,4 +61,26 @@ CHECKS = {
          "(observed: bitwise 0 or 3e-16), and with adaptivity on the recorded dt must reach dt_max and stay there. The oracle computes the explicit-Euler number S from the raw mesh; departures at S <= 2 are violations, "
          "departures at S > 2 and gamma <= 1 are the recorded known finding."),
    note="meshes outside the zoo and (gamma,u) outside the 5-point alphabet are not explored; a mesh whose singular mu Laplacian is flagged 'exactly singular' by SuperLU is recorded as unusable fixture"),
+ "C13": dict(
+   engine="mc-core", category="model_checking", design_ref="DESIGN.md 3/C13",
+   technique="exhaustive shape/pattern enumeration of the kernel against a direct double sum; every screening iteration of every step of an exhaustive configuration product re-derived by an independent SI computation",
+   text=("The accelerated kernel is compared with an extended-precision direct double sum on every (n<=6 sites, m<=5 points) shape x current/area/distance pattern. In the run family every call of the documented "
+         "get_induced_vector_potential (every screening iteration of every step, all devices x fields x tolerances x (alpha,beta) x iteration caps, three unit systems) is intercepted: the returned iterate and error are "
+         "recomputed from the argument currents with an independent SI model (mu0/4pi, Voronoi areas, re-implemented site averaging); a step is returned only if its last error is below the tolerance, otherwise RuntimeError "
+         "and no frame; the stored potential must reproduce the sum from the stored currents within 5x the tolerance; screening off gives an identically zero potential."),
+   note="instance-level interception of a documented method; Polyak's update rule (alpha, beta) is taken from the documentation; devices outside the zoo not covered"),
+ "C04": dict(
+   engine="mc-core", category="model_checking", design_ref="DESIGN.md 3/C04",
+   technique="exhaustive product of (mesh, A, chi, psi, pinned) for operator covariance identities + paired whole runs under constant gauge shifts compared at every recorded step",
+   text=("Operator level: for every mesh x vector potential x gauge function chi x pinned set the covariant gradient and Laplacian built for A + grad chi must equal the conjugated operators for A entrywise (1e-12), and the "
+         "edge supercurrent of psi e^{i chi} must be unchanged for 4 psi patterns. Run level: each problem is run with A = B/2(-(y-y0), x-x0) for non-trivial (x0,y0), started from the gauge-transformed initial state through seed_solution, "
+         "and every recorded step is compared with the unshifted run on |psi|, J_s, J_n, mu-<mu> and psi up to the gauge and a global phase (1e-8; observed 3e-11)."),
+   note="entries of the operators are affine in one link variable each, so three distinct phases per edge decide all A (argument, DESIGN 3/C03); non-zero pinned terminal_psi excluded; gauge functions outside the alphabet not explored"),
+ "C08": dict(
+   engine="mc-core", category="model_checking", design_ref="DESIGN.md 3/C08",
+   technique="exhaustive pairs of unit-system restatements of each problem compared at every recorded step, plus an absolute per-triangle flux identity over all triangles, units and fields",
+   text=("Each problem (device x drive x screening) is stated in (um,mT,uA), (nm,uT,nA), (mm,T,mA) with the same dimensionless mesh and every recorded step of the restatements is compared with the reference "
+         "(dimensionless fields 1e-8; Solution.current_density in A/m between systems and against the SI unit model 1e-9). For every triangle of every mesh, every (length, field) unit pair and 4 field values the gauge phase "
+         "around the triangle must equal 2 pi flux / Phi0 (1e-9; observed 3e-15), also through the time-dependent update path."),
+   note="same Mesh object shared by the restatements; SI constants from scipy.constants; unit names outside {um,nm,mm}x{mT,uT,T}x{uA,nA,mA} not explored"),
 }
